@@ -31,12 +31,13 @@ User == {UserSeq[i] : i \in 1 .. Len(UserSeq)}
 Mods == User \cup {G}
 
 VARIABLES imports, nlits, missing, ndiag,    \* the project (never changes)
-          seen, pc, idx, litsLeft, registry, depGraph, errs, wg, ctr, names, mainpc, sorted, hist,
+          seen, by,     \* by[m]: the module whose import claimed m (G for the two claims of main)
+          pc, idx, litsLeft, registry, depGraph, errs, wg, ctr, names, mainpc, sorted, hist,
           bag,          \* the diagnostic bag in insertion order: records [f, line, n]
           round, past   \* completed compilations of this project: <<[sched, out]>>
 
 proj  == <<imports, nlits, missing, ndiag>>
-vars  == <<imports, nlits, missing, ndiag, seen, pc, idx, litsLeft, registry, depGraph, errs, wg, ctr,
+vars  == <<imports, nlits, missing, ndiag, seen, by, pc, idx, litsLeft, registry, depGraph, errs, wg, ctr,
            names, mainpc, sorted, hist, bag, round, past>>
 
 Range(s) == {s[i] : i \in 1 .. Len(s)}
@@ -70,7 +71,7 @@ Init == /\ imports \in [User -> ImportLists]
         /\ missing \in (IF AllowMissing THEN SUBSET (User \ {Entry}) ELSE {{}})
         /\ ndiag \in [User -> DiagChoices]
         /\ bag = <<>> /\ round = 1 /\ past = <<>>
-        /\ seen = {} /\ pc = [m \in Mods |-> "idle"] /\ idx = [m \in Mods |-> 1]
+        /\ seen = {} /\ by = [m \in Mods |-> G] /\ pc = [m \in Mods |-> "idle"] /\ idx = [m \in Mods |-> 1]
         /\ litsLeft = [m \in Mods |-> 0] /\ registry = {G}
         /\ depGraph = [m \in Mods |-> <<>>] /\ errs = <<>> /\ wg = 0 /\ ctr = 0
         /\ names = [m \in Mods |-> <<>>] /\ mainpc = "spawnG" /\ sorted = <<>> /\ hist = <<>>
@@ -78,8 +79,9 @@ Init == /\ imports \in [User -> ImportLists]
 Lbl(point, owner, arg) == [p |-> point, o |-> owner, a |-> arg]
 
 (* processModule: seen.LoadOrStore + wg.Add + go *)
-ClaimFx(m) == IF m \in seen THEN UNCHANGED <<seen, pc, wg>>
+ClaimFx(m) == IF m \in seen THEN UNCHANGED <<seen, by, pc, wg>>
               ELSE /\ seen' = seen \cup {m} /\ pc' = [pc EXCEPT ![m] = "claimed"] /\ wg' = wg + 1
+                   /\ by' = [by EXCEPT ![m] = G]
 
 MainSpawn == /\ mainpc \in {"spawnG", "spawnE"}
              /\ LET m == IF mainpc = "spawnG" THEN G ELSE Entry IN
@@ -95,26 +97,29 @@ LexDiagsN(m, k) == IF k = 0 THEN <<>>
                                                    [f |-> m, line |-> 100 + k, n |-> 2] >>
 LexDiags(m) == IF m = G THEN <<>> ELSE LexDiagsN(m, ndiag[m])
 
+ImportLine(m, d) == IF d = G THEN 0 ELSE CHOOSE i \in 1 .. Len(Imp(m)) : Imp(m)[i] = d
+
 (* parseModule entry: AddModule, locate + read the file; lexing starts *)
 ParseBegin(m) ==
     /\ pc[m] = "claimed"
     /\ registry' = registry \cup {m}
     /\ IF m \in missing
-       THEN /\ errs' = Append(errs, [kind |-> "missing", m |-> m, d |-> m, path |-> <<>>])
-            /\ pc' = [pc EXCEPT ![m] = "exit"] /\ UNCHANGED <<litsLeft, bag>>
+       THEN /\ errs' = Append(errs, [kind |-> "missing", m |-> m, d |-> by[m], path |-> <<>>])     \* reported at the claiming import
+            /\ bag' = Append(bag, [f |-> by[m], line |-> ImportLine(by[m], m), n |-> 0])
+            /\ pc' = [pc EXCEPT ![m] = "exit"] /\ UNCHANGED litsLeft
        ELSE /\ pc' = [pc EXCEPT ![m] = "parse"]
             /\ litsLeft' = [litsLeft EXCEPT ![m] = IF m = G THEN 0 ELSE nlits[m]]
             /\ bag' = bag \o LexDiags(m)       \* lexer/parser diagnostics of m, in text order
             /\ UNCHANGED errs
     /\ hist' = Append(hist, Lbl("ParseBegin", m, ""))
-    /\ UNCHANGED <<proj, seen, idx, depGraph, wg, ctr, names, mainpc, sorted, round, past>>
+    /\ UNCHANGED <<proj, seen, by, idx, depGraph, wg, ctr, names, mainpc, sorted, round, past>>
 
 (* utils.GenerateFuncLitID: atomic add on a process-global counter *)
 GenLit(m) == /\ pc[m] = "parse" /\ litsLeft[m] > 0
              /\ ctr' = ctr + 1 /\ names' = [names EXCEPT ![m] = Append(@, ctr + 1)]
              /\ litsLeft' = [litsLeft EXCEPT ![m] = @ - 1]
              /\ hist' = Append(hist, Lbl("GenLit", m, "__func_lit__"))
-             /\ UNCHANGED <<proj, seen, pc, idx, registry, depGraph, errs, wg, mainpc, sorted, bag, round, past>>
+             /\ UNCHANGED <<proj, seen, by, pc, idx, registry, depGraph, errs, wg, mainpc, sorted, bag, round, past>>
 
 (* AddDependency(m, d): the critical section of ctx.mu — cycle search and insertion together *)
 (* findCycle / hasCyclePath: depth-first search in the order of the dependency lists, one visited
@@ -132,7 +137,6 @@ DfsList(g, deps, target, visited, node) ==
          ELSE DfsList(g, Tail(deps), target, r.visited, node)
 CyclePath(m, d) == <<m>> \o Dfs(depGraph, d, m, {}).path \o <<m>>
 
-ImportLine(m, d) == IF d = G THEN 0 ELSE CHOOSE i \in 1 .. Len(Imp(m)) : Imp(m)[i] = d
 AddDepFx(m, d) ==
     IF m \in Reach(depGraph, d)
     THEN /\ errs' = Append(errs, [kind |-> "cycle", m |-> m, d |-> d, path |-> CyclePath(m, d)])
@@ -149,7 +153,7 @@ DepG(m) == /\ pc[m] = "parse" /\ litsLeft[m] = 0 /\ m # G
            /\ pc' = [pc EXCEPT ![m] = IF Len(Imp(m)) = 0 THEN "exit" ELSE "dep"]
            /\ idx' = [idx EXCEPT ![m] = 1]
            /\ hist' = Append(hist, Lbl("Dep", m, G))
-           /\ UNCHANGED <<proj, seen, litsLeft, registry, wg, ctr, names, mainpc, sorted, round, past>>
+           /\ UNCHANGED <<proj, seen, by, litsLeft, registry, wg, ctr, names, mainpc, sorted, round, past>>
 
 Dep(m) == /\ pc[m] = "dep"
           /\ LET d == Imp(m)[idx[m]] IN
@@ -158,13 +162,13 @@ Dep(m) == /\ pc[m] = "dep"
           /\ IF idx[m] = Len(Imp(m))
              THEN pc' = [pc EXCEPT ![m] = "spawn"] /\ idx' = [idx EXCEPT ![m] = 1]
              ELSE pc' = pc /\ idx' = [idx EXCEPT ![m] = @ + 1]
-          /\ UNCHANGED <<proj, seen, litsLeft, registry, wg, ctr, names, mainpc, sorted, round, past>>
+          /\ UNCHANGED <<proj, seen, by, litsLeft, registry, wg, ctr, names, mainpc, sorted, round, past>>
 
 Spawn(m) == /\ pc[m] = "spawn"
             /\ LET d == Imp(m)[idx[m]] IN
-               /\ IF d \in seen THEN UNCHANGED <<seen, wg>> /\ pc' = [pc EXCEPT ![m] =
+               /\ IF d \in seen THEN UNCHANGED <<seen, by, wg>> /\ pc' = [pc EXCEPT ![m] =
                                          IF idx[m] = Len(Imp(m)) THEN "exit" ELSE @]
-                  ELSE /\ seen' = seen \cup {d} /\ wg' = wg + 1
+                  ELSE /\ seen' = seen \cup {d} /\ wg' = wg + 1 /\ by' = [by EXCEPT ![d] = m]
                        /\ pc' = [pc EXCEPT ![d] = "claimed",
                                            ![m] = IF idx[m] = Len(Imp(m)) THEN "exit" ELSE @]
                /\ hist' = Append(hist, Lbl("Spawn", m, d))
@@ -175,11 +179,11 @@ Spawn(m) == /\ pc[m] = "spawn"
 Exit(m) == /\ \/ pc[m] = "exit"
               \/ (pc[m] = "parse" /\ litsLeft[m] = 0 /\ m = G)
            /\ pc' = [pc EXCEPT ![m] = "done"] /\ wg' = wg - 1
-           /\ UNCHANGED <<proj, seen, idx, litsLeft, registry, depGraph, errs, ctr, names, mainpc,
+           /\ UNCHANGED <<proj, seen, by, idx, litsLeft, registry, depGraph, errs, ctr, names, mainpc,
                           sorted, hist, bag, round, past>>
 
 MainWait == /\ mainpc = "wait" /\ wg = 0 /\ mainpc' = "topo"
-            /\ UNCHANGED <<proj, seen, pc, idx, litsLeft, registry, depGraph, errs, wg, ctr, names,
+            /\ UNCHANGED <<proj, seen, by, pc, idx, litsLeft, registry, depGraph, errs, wg, ctr, names,
                            sorted, hist, bag, round, past>>
 
 (* ComputeTopologicalOrder: Kahn's algorithm, zero in-degree queue and every wave sorted by name *)
@@ -199,7 +203,7 @@ TopoOf(g, reg) == LET indeg == [m \in reg |-> InDeg(g, m)]
 MainTopo == /\ mainpc = "topo"
             /\ sorted' = TopoOf(depGraph, registry)
             /\ mainpc' = "done"
-            /\ UNCHANGED <<proj, seen, pc, idx, litsLeft, registry, depGraph, errs, wg, ctr, names, hist,
+            /\ UNCHANGED <<proj, seen, by, pc, idx, litsLeft, registry, depGraph, errs, wg, ctr, names, hist,
                            bag, round, past>>
 
 (* What a second compilation must reproduce (C14): failure, diagnostics with their places, the
@@ -223,7 +227,7 @@ Output == [ fail    |-> errs # <<>> \/ bag # <<>>,
 Restart == /\ mainpc = "done" /\ round < Rounds
            /\ past' = Append(past, [sched |-> hist, out |-> Output])
            /\ round' = round + 1
-           /\ seen' = {} /\ pc' = [m \in Mods |-> "idle"] /\ idx' = [m \in Mods |-> 1]
+           /\ seen' = {} /\ by' = [m \in Mods |-> G] /\ pc' = [m \in Mods |-> "idle"] /\ idx' = [m \in Mods |-> 1]
            /\ litsLeft' = [m \in Mods |-> 0] /\ registry' = {G}
            /\ depGraph' = [m \in Mods |-> <<>>] /\ errs' = <<>> /\ wg' = 0 /\ ctr' = 0
            /\ names' = [m \in Mods |-> <<>>] /\ mainpc' = "spawnG" /\ sorted' = <<>> /\ hist' = <<>>
@@ -266,7 +270,7 @@ TopoOK == Done /\ missing = {} =>
 
 Termination == <>Done
 
-View == <<imports, nlits, missing, ndiag, seen, pc, idx, litsLeft, registry, depGraph, errs, wg, ctr,
+View == <<imports, nlits, missing, ndiag, seen, by, pc, idx, litsLeft, registry, depGraph, errs, wg, ctr,
           names, mainpc, sorted, bag, round>>
 
 (* Case emission at terminal states (one per distinct terminal abstract state, thanks to VIEW) *)
